@@ -97,7 +97,7 @@ def check(run: Run) -> None:
     run.rule("C12.R3", "the emitted piece sequence (kind, optional ' Pn', ' ', body, NL) is derivable from the grammar's item rule")
     run.rule("C12.R4", "single renderer: query results and moved notes obtain item text only from Note.to_string")
     run.rule("C12.R5", "a refreshed .zoq page ends its last item with a newline")
-    run.rule("C12.R7", "the header a refresh keeps is the LEADING run of header lines (takewhile / break at the first other line), never a filter over the whole old page")
+    run.rule("C12.R7", "refresh, by abstract runs over virtual saved-query pages (never refreshed / refreshed before with '#' lines in the old results / header ending in '#' / query line only): the header kept is the LEADING run of comment lines, one fresh stats line follows, below it exactly the fresh results")
     run.rule("C12.R8", "every ZID the allocator writes into a page is one ZID token for the file lexer (shared with C05.R2/C07)")
     run.rule("C12.R9", "what the index stores for a re-stamped note keeps the note's own line structure, so its rendered text compiles back to it (obligations C11.R6 adopted)")
     from . import c11 as _c11
@@ -227,20 +227,9 @@ def check(run: Run) -> None:
         own = [j for j in ast.walk(f.node) if isinstance(j, ast.JoinedStr) and any(isinstance(v, ast.FormattedValue) and "body" in ast.unparse(v.value) for v in j.values)]
         run.check("C12.R4", f"{nm} renders notes through Note.to_string only", uses and not own, nm, own[0] if own else "to_string", f"{nm} builds item text itself instead of calling Note.to_string", file=f.file, node=f.node)
 
-    # ---- R5
-    fr = flat_info(model, F_REFRESH, exclude=(F_REFRESH.rsplit(".", 1)[0] + "._is_zoq_header_line",))
-    se = ShapeEval(model, fr)
-    writes = [c for c in ast.walk(fr.node) if isinstance(c, ast.Call) and isinstance(c.func, ast.Attribute) and c.func.attr in ("write", "write_text")]
-    run.floor("page writes in refresh_zoq_file_with_session", len(writes), 1)
-    for w in writes:
-        for sh in se.eval(w.args[0]):
-            last = sh[-1] if sh else None
-            ok = isinstance(last, Const) and last.text.endswith("\n")
-            run.check("C12.R5", "the written .zoq page ends with a newline", ok, "refresh_zoq_file_with_session", "page text ends with the query results (no trailing newline)",
-                      f"the page text is `...{render(sh[-2:])}`: the results are stripped and nothing follows, so the last item lacks the NL the grammar's item rule requires "
-                      "and the refreshed page does not compile", file=fr.file, node=w)
-    # ---- R7 / R8
-    zoq_header_is_leading_run(run, model, fr)
+    # ---- R5 / R7
+    refresh_scenarios(run, model)
+    # ---- R8
     from .c07 import allocated_zids_lex_as_zids
 
     allocated_zids_lex_as_zids(run, model, "C12.R8")
@@ -250,44 +239,91 @@ def check(run: Run) -> None:
     run.assumptions += ["value-level round trip of arbitrary bodies is not decided (e.g. a done todo whose body starts with a priority-shaped word)"]
 
 
-def zoq_header_is_leading_run(run: Run, model: PyModel, fr) -> None:
-    from ..util import parent_map
+def refresh_scenarios(run: Run, model: PyModel) -> None:
+    """Abstract runs of refresh_zoq_file_with_session over a virtual saved-query page (the query is not executed: its result is a marker text):
+    the page written keeps exactly the LEADING run of comment lines of the old page (up to the previous stats line / the first other line) as its
+    header, carries one fresh stats line, and then the new results -- nothing of the previous results (their '#' section lines included) survives,
+    and the text ends with a newline so that its last item is a complete item for the page grammar."""
+    from ..virtual import World, vpath
 
-    pm = parent_map(fr.node)
-    uses = [n for n in ast.walk(fr.node) if isinstance(n, ast.Name) and n.id == "_is_zoq_header_line"]
-    run.floor("uses of _is_zoq_header_line in the refresh", len(uses), 1)
-    for u in uses:
-        # climb: Name -> (partial(...)) -> consumer
-        node = u
-        par = pm.get(node)
-        if isinstance(par, ast.Call) and par.func is node:
-            node, par = par, pm.get(par)  # direct call pred(marker, line)
-        if isinstance(par, ast.Call) and ast.unparse(par.func).split(".")[-1] == "partial":
-            node, par = par, pm.get(par)
-        while isinstance(par, (ast.UnaryOp, ast.BoolOp)):
-            node, par = par, pm.get(par)
-        verdict = None
-        if isinstance(par, ast.Call) and ast.unparse(par.func).split(".")[-1] == "takewhile":
-            verdict = True
-        elif isinstance(par, ast.Call) and ast.unparse(par.func).split(".")[-1] in ("filter", "filterfalse", "dropwhile"):
-            verdict = False
-        elif isinstance(par, ast.comprehension):
-            verdict = False
-        elif isinstance(par, ast.If):
-            loop = par
-            while loop is not None and not isinstance(loop, (ast.For, ast.While)):
-                loop = pm.get(loop)
-            if loop is not None:
-                verdict = any(isinstance(x, (ast.Break, ast.Return)) for x in ast.walk(par))
-        elif isinstance(par, ast.Assign):
-            # partial bound to a name: look at where the name is consumed
-            tgt = par.targets[0].id if isinstance(par.targets[0], ast.Name) else None
-            cons = [pm.get(n) for n in ast.walk(fr.node) if isinstance(n, ast.Name) and n.id == tgt and isinstance(n.ctx, ast.Load)]
-            kinds = {ast.unparse(c.func).split(".")[-1] if isinstance(c, ast.Call) else type(c).__name__ for c in cons}
-            verdict = True if kinds == {"takewhile"} else (False if kinds & {"filter", "comprehension"} else None)
-        if verdict is None:
-            run.undecided("C12.R7", "refresh_zoq_file_with_session", f"unrecognised use of the header-line predicate: `{ast.unparse(par)[:80] if par is not None else '?'}`")
-        else:
-            run.check("C12.R7", "the kept header is the leading run of header lines", verdict, "refresh_zoq_file_with_session", par,
-                      f"the old header is selected with `{ast.unparse(par)[:90]}`, a filter over every line of the old page: '#' lines further down (section headers of the previous "
-                      "results) are kept as header too, so the header grows on every refresh and the page no longer is header + fresh results", file=fr.file, node=par)
+    fr = model.func(F_REFRESH)
+    STATS = "# SAVED QUERY GENERATED ON"
+    RESULTS = "################################ #new\n\n- 240101#N1 fresh note\n  its second line"
+    user_header = ["# W +a G area", "#", "# a comment of the user", "# another"]
+    pages = {
+        "a page that was never refreshed": user_header,
+        "a page refreshed before, old results with '#' section lines": user_header + ["#", f"{STATS} 2024-01-01 AT 00:00:00.", "", "################################ #old", "", "- 240101#O1 stale note", "# stale comment line", ""],
+        "a header that already ends in a bare '#'": user_header + ["#"],
+        "only the query line": ["# W +a"],
+    }
+    mi = model.module_of(F_REFRESH.rsplit(".", 1)[0])
+    q_exec = model.resolve_dotted(mi.imports.get("execute_with_session", "")) or "zorg.service.swog._executor.execute_with_session"
+    n = 0
+    for label, lines in pages.items():
+        W = World(model, files={}, old_map=None, indexed=set(), errors=set(), whitelist=[], contents={"/Z/zoq/q.zoq": "\n".join(lines)}, missing="all-but-contents")
+        probes = W.probes()
+        base_m = probes["method:*"]
+        asked: list = []
+
+        def execute(I, args, kwargs, st, node):
+            asked.append(args[1] if len(args) > 1 else kwargs.get("qstring"))
+            return [(RESULTS, st)]
+
+        def meth(I, recv, name, args, kwargs, st, node):
+            if recv.cls.startswith("ext:datetime") and name in ("now", "today"):
+                return [(Opaque("vnow"), st)]
+            if recv.cls == "vnow" and name == "strftime" and args and isinstance(args[0], str):
+                out = args[0]
+                for k, v in (("%Y", "2024"), ("%m", "05"), ("%d", "06"), ("%H", "07"), ("%M", "08"), ("%S", "09"), ("%y", "24")):
+                    out = out.replace(k, v)
+                return [(out, st)]
+            if recv.cls == "vhandle" and name == "write" and args and isinstance(args[0], str):
+                st.meta["vfiles"] = {**st.meta.get("vfiles", {}), recv.tag: args[0]}
+            return base_m(I, recv, name, args, kwargs, st, node)
+
+        probes["method:*"] = meth
+        probes[q_exec] = execute
+        I = Interp(model, probes=probes, max_states=2000)
+        try:
+            res = I.run_function(F_REFRESH, [Opaque("vsession", ""), vpath("/Z/zoq/q.zoq")])
+        except Exception as e:  # noqa: BLE001
+            run.undecided("C12.R7", "refresh_zoq_file_with_session", f"{label}: cannot interpret: {type(e).__name__}: {str(e)[:100]}")
+            continue
+        for v, s in res:
+            n += 1
+            text = s.meta.get("vfiles", {}).get("/Z/zoq/q.zoq")
+            if isinstance(v, Raised) or s.imprecise or not isinstance(text, str):
+                run.undecided("C12.R7", "refresh_zoq_file_with_session", f"{label}: " + (f"raises {v.exc}" if isinstance(v, Raised) else "; ".join(s.imprecise[:2]) or "no concrete text is written to the page"))
+                continue
+            out = text.split("\n")
+            stats = [i for i, l in enumerate(out) if l.startswith(STATS)]
+            lead = []
+            for l in lines:
+                if not l.startswith("#") or l.startswith(STATS):
+                    break
+                lead.append(l)
+
+            def core(ls):
+                ls = list(ls)
+                while ls and ls[-1].strip() in ("#", ""):
+                    ls.pop()
+                return ls
+
+            ok_q = asked[-1:] == [lines[0].strip()[2:]]
+            run.check("C12.R7", f"{label}: the query executed is the page's first line", ok_q, "refresh_zoq_file_with_session", f"{label}: executed {asked[-1:]}",
+                      f"refreshing {label} executes {asked[-1:]} instead of the query on its first line {lines[0]!r}", file=fr.file, node=fr.node)
+            ok_h = len(stats) == 1 and core(out[:stats[0]]) == core(lead)
+            run.check("C12.R7", f"{label}: the kept header is the leading run of comment lines, followed by one fresh stats line", ok_h, "refresh_zoq_file_with_session", f"{label}: header {out[:stats[0]] if stats else out[:6]}",
+                      f"refreshing {label} writes the header {out[:stats[0]] if stats else out[:8]} ({len(stats)} stats lines), expected {lead}: '#' lines further down (section headers or comments of the previous "
+                      "results) are kept as header too / user header lines are lost, so the page no longer is header + fresh results", file=fr.file, node=fr.node)
+            if stats:
+                body = "\n".join(out[stats[-1] + 1:])
+                ok_b = body.strip("\n") == RESULTS.strip("\n")
+                run.check("C12.R7", f"{label}: below the stats line there are exactly the fresh results", ok_b, "refresh_zoq_file_with_session", f"{label}: body {body[:80]!r}",
+                          f"refreshing {label} writes {body[:200]!r} below the stats line, expected the fresh results {RESULTS!r}: stale results survive or fresh ones are cut", file=fr.file, node=fr.node)
+            run.check("C12.R5", "the written .zoq page ends with a newline", text.endswith("\n"), "refresh_zoq_file_with_session", "page text ends with the query results (no trailing newline)",
+                      f"the page text ends `...{text[-40:]!r}`: the results are stripped and nothing follows, so the last item lacks the NL the grammar's item rule requires "
+                      "and the refreshed page does not compile", file=fr.file, node=fr.node)
+    run.floor("refresh scenarios", n, 4)
+
+
